@@ -30,6 +30,15 @@ struct ElemNM
     ~ElemNM() { g_ev.push_back({'D', reinterpret_cast<std::uintptr_t>(this)}); }
 };
 static_assert(sizeof(ElemNM) == sizeof(Elem), "the event log divides addresses by sizeof(Elem)");
+// default construction cannot throw, construction from an argument can: the guard must not depend on the default constructor
+struct ElemArg
+{
+    long pad;
+    ElemArg() noexcept {}
+    explicit ElemArg(int) { if (g_seq++ == g_throw_at) throw boom{}; g_ev.push_back({'C', reinterpret_cast<std::uintptr_t>(this)}); }
+    ~ElemArg() { g_ev.push_back({'D', reinterpret_cast<std::uintptr_t>(this)}); }
+};
+static_assert(sizeof(ElemArg) == sizeof(Elem), "the event log divides addresses by sizeof(Elem)");
 
 // leaf that records alloc/free in the same event list and checks parameters
 struct rec_alloc
@@ -63,6 +72,9 @@ static void run_helper(const std::string& helper, Alloc& alloc, std::size_t n, b
         else if (helper == "array") { auto p = allocate_unique<Elem[]>(alloc, n); }
         else if (helper == "anyarray") { auto p = allocate_unique<Elem[]>(any_allocator{}, alloc, n); }
         else if (helper == "shared") { auto p = allocate_shared<Elem>(alloc); }
+        else if (helper == "singlearg") { auto p = allocate_unique<ElemArg>(alloc, 1); }
+        else if (helper == "anysinglearg") { auto p = allocate_unique<ElemArg>(any_allocator{}, alloc, 1); }
+        else if (helper == "sharedarg") { auto p = allocate_shared<ElemArg>(alloc, 1); }
         else if (helper == "arraynm") { auto p = allocate_unique<ElemNM[]>(alloc, n); }
         else if (helper == "anyarraynm") { auto p = allocate_unique<ElemNM[]>(any_allocator{}, alloc, n); }
     }
